@@ -44,7 +44,7 @@ TIG = 'transformation_instruction_generator:TransformationInstructionsGenerator'
 PG = 'params_generator:ParamsGenerator'
 ID_ATTRS = {'producer', 'tensor_id', 'op_id', 'subgraph_id', 'subgraph_op_id',
             'subgraph_op_index', 'opcodeIndex', 'output_tensor_id', 'tensorIndex',
-            'subgraphIndex', 'quantized_dimension', 'quantizedDimension'}
+            'subgraphIndex'}
 
 
 def r1_name_uniqueness(ctx):
